@@ -258,15 +258,16 @@ Section LogDamage.
     Forall (Forall wf_entry) ess ->
     write_log bits crc rollover (map ebytes ess) = (rs, file) ->
     pad_at bits (len file) k ->
-    (forall hf, next bits crc (S hf) (at_ (len file + k) R) = NErr e) ->
+    (forall hf, exists st', next bits crc (S hf) (at_ (len file + k) R) = NErr e st') ->
     read_log bits crc (file ++ zeros k ++ R) = (concat (ok_batches rs ess), RErr e).
   Proof.
     intros rollover ess rs file k R e Hes H Hpad Hstep.
     rewrite <- (app_nil_r (concat (ok_batches rs ess))).
     apply (read_log_after rollover ess rs file (zeros k ++ R) (S (length (zeros k ++ R))) [] (RErr e) Hes H
              (Nat.lt_succ_diag_r _)).
-    apply ReadsErr.
-    rewrite (next_skip_pad bits crc HB _ _ _ _ Hpad (Nat.lt_succ_diag_r _)). apply Hstep.
+    destruct (Hstep (length (zeros k ++ R))) as [st' Hst].
+    apply (ReadsErr bits crc _ _ e st').
+    rewrite (next_skip_pad bits crc HB _ _ _ _ Hpad (Nat.lt_succ_diag_r _)). exact Hst.
   Qed.
 
   (* ================================================================ (L3)/(L4) a frame whose checksum does not match *)
@@ -274,20 +275,20 @@ Section LogDamage.
      length whose checksum is not the stored one *)
   Lemma next_frame_bad_crc : forall f p h b' Y buf,
     header_ok h -> h_size h <= TABLE_FULL_SIZE -> len b' = h_size h -> crc32 crc b' <> h_crc h ->
-    next_frame bits crc (S f) p (header_frame h ++ b' ++ Y) buf = FrErr ECrc.
+    exists p' r', next_frame bits crc (S f) p (header_frame h ++ b' ++ Y) buf = FrErr ECrc p' r'.
   Proof.
     intros f p h b' Y buf Hok Hsz Hl Hc. unfold next_frame.
     rewrite (next_header_frame bits crc HB) by assumption.
     rewrite <- Hl, take_exact_app.
-    destruct (N.eqb_spec (crc32 crc b') (h_crc h)) as [E|E]; [contradiction|reflexivity].
+    destruct (N.eqb_spec (crc32 crc b') (h_crc h)) as [E|E]; [contradiction|do 2 eexists; reflexivity].
   Qed.
 
   Lemma next_bad_crc : forall f p h b' Y,
     header_ok h -> h_size h <= TABLE_FULL_SIZE -> len b' = h_size h -> crc32 crc b' <> h_crc h ->
-    next bits crc (S f) (at_ p (header_frame h ++ b' ++ Y)) = NErr ECrc.
+    exists st', next bits crc (S f) (at_ p (header_frame h ++ b' ++ Y)) = NErr ECrc st'.
   Proof.
     intros f p h b' Y Hok Hsz Hl Hc. unfold next. cbn [r_pend r_pos r_rest].
-    now rewrite next_frame_bad_crc.
+    destruct (next_frame_bad_crc f p h b' Y [] Hok Hsz Hl Hc) as (p' & r' & ->). eexists. reflexivity.
   Qed.
 
   (* the same as the SECOND frame of a split batch: intact first frame, padding to the boundary *)
@@ -295,8 +296,8 @@ Section LogDamage.
     len first <= TABLE_FULL_SIZE ->
     k2 <= HEADER_MAX_SIZE -> (p + len (frame crc HEADER_FIRST first) + k2) mod B = 0 ->
     header_ok h -> h_size h <= TABLE_FULL_SIZE -> len b' = h_size h -> crc32 crc b' <> h_crc h ->
-    next bits crc (S f) (at_ p (frame crc HEADER_FIRST first ++ zeros k2 ++ header_frame h ++ b' ++ Y))
-    = NErr ECrc.
+    exists st', next bits crc (S f) (at_ p (frame crc HEADER_FIRST first ++ zeros k2 ++ header_frame h ++ b' ++ Y))
+    = NErr ECrc st'.
   Proof.
     intros f p first k2 h b' Y Hl1 Hk2 Hmod Hok Hsz Hl Hc.
     destruct disc_small as (HdW & HdF & HdS).
@@ -305,7 +306,8 @@ Section LogDamage.
     rewrite (next_frame_full bits crc HB) by assumption. cbn [h_disc hdr]. rewrite E2, E3. cbn [app].
     rewrite (r_true_up_pad bits crc HB _ k2) by assumption.
     rewrite drop_zeros.
-    now rewrite next_frame_bad_crc.
+    destruct (next_frame_bad_crc f (p + len (frame crc HEADER_FIRST first) + k2) h b' Y ([] ++ first) Hok Hsz Hl Hc) as (p' & r' & E).
+    cbn [app] in E. rewrite E. eexists. reflexivity.
   Qed.
 
   (* general form: first frame after the log *)
@@ -440,7 +442,7 @@ Section LogDamage.
   (* a zero byte where a header is expected, more than HEADER_MAX_SIZE+1 bytes before the boundary *)
   Lemma next_zero_far : forall f p T,
     HEADER_MAX_SIZE + 1 < nb p - p ->
-    next bits crc (S f) (at_ p (0 :: T)) = NErr ETrueUp.
+    exists st', next bits crc (S f) (at_ p (0 :: T)) = NErr ETrueUp st'.
   Proof.
     intros f p T Hfar. unfold next, next_frame. cbn [r_pend r_pos r_rest].
     rewrite (next_header_S bits). cbv zeta. change (0 =? 0) with true. cbv iota.
@@ -448,7 +450,7 @@ Section LogDamage.
     assert (Htu : compute_true_up bits (p + 1) = nb p).
     { apply true_up_unique; [apply nb_mod|lia|]. pose proof (nb_le bits p). lia. }
     rewrite Htu.
-    destruct (N.ltb_spec HEADER_MAX_SIZE (nb p - (p + 1))) as [E|E]; [reflexivity|lia].
+    destruct (N.ltb_spec HEADER_MAX_SIZE (nb p - (p + 1))) as [E|E]; [eexists; reflexivity|lia].
   Qed.
 
   (* general form: ANY zero byte where the next frame header should start *)
